@@ -402,10 +402,6 @@ Proof.
     rewrite E. exists out, d'. auto 10.
 Qed.
 
-(* C++ twin of the offset wrap of nunavutSetUxx (see CPrimsWThm.set_uxx_offset_wrap_refuted) *)
-Theorem cpp_set_uxx_offset_wrap_refuted :
-  exists s value len, span_okb s = true /\ sp_bits s < len /\ cpp_set_uxx s value len = None.
-Proof. exists (mkspan [0; 0] 2 (two64 - 8)), 255, 16. vm_compute. repeat split. Qed.
 
 (* degenerate bit lengths on the Python side: 0-bit unsigned and 0-/1-bit signed arguments violate the `assert bit_length >= 1`
    (resp. `>= 2`) of the source and raise (None), on both classes, aligned or not; in C/C++ a 0-bit store writes nothing and a
@@ -426,7 +422,7 @@ Proof.
 Qed.
 
 (* ---------------------------------------------------------------------------------------------
-   C++ subspan(bits) / subspan_bytes(n) of the current source (pointer clamped to one past the end) *)
+   C++ subspan(bits) / subspan_bytes(n) (pointer clamped to one past the end: always a well formed span) *)
 Theorem subspan_clamped_spec s bits :
   span_ok s -> sp_off s + bits < two64 ->
   let k := (sp_off s + bits) / 8 in
@@ -435,9 +431,9 @@ Theorem subspan_clamped_spec s bits :
   sp_size s' = sp_size s - k /\ span_ok s' /\
   (forall p, bit (sp_data s') p = bit (sp_data s) (8 * N.min k (sp_size s) + p)) /\
   sp_bits s' = sp_size s * 8 - (sp_off s + bits) /\
-  (k <= sp_size s -> s' = subspan s bits /\ 8 * k + sp_off s' = sp_off s + bits).
+  (k <= sp_size s -> 8 * k + sp_off s' = sp_off s + bits).
 Proof.
-  intros (S1 & S2 & S3) Hw k s'. subst s'. unfold subspan_clamped, subspan. rewrite (w64_small (sp_off s + bits)) by exact Hw. fold k.
+  intros (S1 & S2 & S3) Hw k s'. subst s'. unfold subspan_clamped. rewrite (w64_small (sp_off s + bits)) by exact Hw. fold k.
   assert (T64 : two64 = 18446744073709551616) by reflexivity.
   assert (Hsz : (if k <? sp_size s then sp_size s - k else 0) = sp_size s - k) by (destruct (N.ltb_spec k (sp_size s)); lia).
   rewrite Hsz. cbn [sp_data sp_off sp_size].
@@ -448,7 +444,7 @@ Proof.
   split; [intros p; apply bit_skipn|]. split.
   { unfold sp_bits. cbn [sp_size sp_off]. rewrite w64_small by lia.
     destruct (N.ltb_spec ((sp_size s - k) * 8) ((sp_off s + bits) mod 8)); subst k; lia. }
-  intros Hk. split; [|subst k; lia]. replace (N.min k (sp_size s)) with k by lia. reflexivity.
+  intros Hk. subst k. lia.
 Qed.
 
 Theorem subspan_bytes_clamped_spec s size_bytes :
@@ -475,7 +471,7 @@ Theorem subspans_clamped_spec_b s bits size_bytes bits_at size_bits :
    sp_size s' = sp_size s - k /\ span_ok s' /\
    (forall p, bit (sp_data s') p = bit (sp_data s) (8 * N.min k (sp_size s) + p)) /\
    sp_bits s' = sp_size s * 8 - (sp_off s + bits) /\
-   (k <= sp_size s -> s' = subspan s bits /\ 8 * k + sp_off s' = sp_off s + bits)) /\
+   (k <= sp_size s -> 8 * k + sp_off s' = sp_off s + bits)) /\
   (let s' := subspan_bytes_clamped s size_bytes in
    sp_data s' = skipn (N.to_nat (N.min (sp_off s / 8) (sp_size s))) (sp_data s) /\ sp_off s' = sp_off s mod 8 /\
    sp_size s' = N.min size_bytes (sp_size s - sp_off s / 8) /\ span_ok s') /\
@@ -489,4 +485,54 @@ Proof.
   intros Hb H. apply span_okb_ok in Hb as [Hs _]. apply andb_prop in H as [H H3]. apply andb_prop in H as [H1 H2].
   apply N.ltb_lt in H1, H2, H3.
   split; [apply subspan_clamped_spec; assumption|]. split; [apply subspan_bytes_clamped_spec; assumption|apply subspan2_spec; assumption].
+Qed.
+
+(* ---------------------------------------------------------------------------------------------
+   The truncation contract of the Python unsigned/signed writers ("all methods operating on scalars implicitly truncate the value
+   if it exceeds the range"): _unsigned_to_bytes(value, bit_length) yields ceil(bit_length/8) bytes that hold value mod 2^bit_length
+   and NOTHING above bit bit_length - in particular the unused top of the last byte is zero, whatever the value.  With
+   add_(un)aligned_unsigned_appends (value is an arbitrary natural there) this is: exactly bit_length bits, those of
+   value mod 2^bit_length, are written at the cursor and every bit after the new cursor is zero. *)
+Theorem unsigned_to_bytes_spec value bits :
+  1 <= bits ->
+  exists bs, unsigned_to_bytes value bits = Some bs /\ blen bs = (bits + 7) / 8 /\ bytes_ok bs /\
+    of_le_bytes bs = value mod 2 ^ bits /\
+    forall k, bit bs k = (k <? bits) && N.testbit value k.
+Proof.
+  intros Hb. unfold unsigned_to_bytes. replace (bits <? 1) with false by (symmetry; apply N.ltb_ge; exact Hb).
+  rewrite to_bytes_loop_le. eexists. split; [reflexivity|].
+  set (nb := (bits + 7) / 8). set (v := N.land value (2 ^ bits - 1)).
+  assert (Hbits : forall k, bit (le_bytes (N.to_nat nb) v) k = (k <? bits) && N.testbit value k).
+  { intros k. rewrite bit_le_bytes. subst v. rewrite N.land_spec, pow2_minus1_ones, tb_ones. rewrite N2Nat.id.
+    destruct (N.ltb_spec k (8 * nb)); destruct (N.ltb_spec k bits); cbn [andb]; try (subst nb; lia);
+      rewrite ?andb_true_r, ?andb_false_r; reflexivity. }
+  split; [unfold blen; rewrite le_bytes_length; lia|]. split; [apply le_bytes_ok|]. split; [|exact Hbits].
+  apply N.bits_inj. intros k. rewrite of_le_bytes_bit by apply le_bytes_ok. rewrite Hbits.
+  rewrite <- N.land_ones, N.land_spec, tb_ones. apply andb_comm.
+Qed.
+
+Theorem unsigned_writers_truncate (aligned : bool) s value bits :
+  Inv s -> bytes_ok (s_buf s) -> 1 <= bits ->
+  (if aligned then s_off s mod 8 = 0 /\ s_off s / 8 + (bits + 7) / 8 <= blen (s_buf s)
+   else s_off s / 8 + (bits + 7) / 8 < blen (s_buf s)) ->
+  exists s', (if aligned then add_aligned_unsigned s value bits else add_unaligned_unsigned s value bits) = Some s' /\
+             appended s s' bits (N.testbit (value mod 2 ^ bits)) /\
+             (if aligned then add_aligned_unsigned s (value mod 2 ^ bits) bits else add_unaligned_unsigned s (value mod 2 ^ bits) bits) = Some s'.
+Proof.
+  intros HI Hok Hb Hcap.
+  assert (Hext : forall s', appended s s' bits (N.testbit value) -> appended s s' bits (N.testbit (value mod 2 ^ bits))).
+  { intros s' (A & B & C & D). repeat split; try assumption. intros p. rewrite D.
+    destruct (p <? s_off s); [reflexivity|]. destruct (N.ltb_spec p (s_off s + bits)); [|reflexivity].
+    symmetry. apply N.mod_pow2_bits_low. lia. }
+  assert (Hsame : forall v1 v2, (forall k, k < bits -> N.testbit v1 k = N.testbit v2 k) -> unsigned_to_bytes v1 bits = unsigned_to_bytes v2 bits).
+  { intros v1 v2 H. destruct (unsigned_to_bytes_spec v1 bits Hb) as (b1 & E1 & L1 & K1 & _ & B1).
+    destruct (unsigned_to_bytes_spec v2 bits Hb) as (b2 & E2 & L2 & K2 & _ & B2). rewrite E1, E2. f_equal.
+    apply bytes_eq_of_bits; try assumption; [unfold blen in *; lia|]. intros p. rewrite B1, B2.
+    destruct (N.ltb_spec p bits); cbn [andb]; [apply H; assumption|reflexivity]. }
+  specialize (Hsame value (value mod 2 ^ bits) (fun k Hk => eq_sym (N.mod_pow2_bits_low value bits k Hk))).
+  destruct aligned.
+  - destruct Hcap as [Hal Hcap]. destruct (add_aligned_unsigned_appends s value bits HI Hok Hb Hal Hcap) as (s' & E & A).
+    exists s'. split; [exact E|]. split; [apply Hext; exact A|]. unfold add_aligned_unsigned in *. rewrite <- Hsame. exact E.
+  - destruct (add_unaligned_unsigned_appends s value bits HI Hok Hb Hcap) as (s' & E & A).
+    exists s'. split; [exact E|]. split; [apply Hext; exact A|]. unfold add_unaligned_unsigned in *. rewrite <- Hsame. exact E.
 Qed.
